@@ -150,6 +150,9 @@ impl<T: std::fmt::Debug> MapDbg for Guard<T> {
 }
 
 pub fn replay(ctx: &Arc<Ctx>, v: &Value) {
+    if crate::cold::replay(ctx, v) {
+        return;
+    }
     let c: Case = serde_json::from_value(v.clone()).expect("C02 case");
     eval(ctx, &c);
 }
@@ -245,4 +248,5 @@ pub fn run(ctx: &Arc<Ctx>) {
         }
     }
     ctx.sample(json!({"History": {"key": hex::encode(std_key), "seq": [0, 3, 1, 2]}}));
+    crate::cold::check(ctx, "C02");
 }
